@@ -38,6 +38,8 @@ import Scc.RV.Backend
 import Scc.Fun2Core.Hygiene
 import Scc.Fun.ZeroEdge
 import Scc.Props.C14Generic
+import Scc.Pipeline
+import Scc.Pipeline.Links
 
 open Scc
 
@@ -162,6 +164,26 @@ def dispatch (line : String) : IO String := do
   | ["sx", kind, file] => do
     let text ← IO.FS.readFile file
     pure (roundtrip kind text)
+  | ["pipeline", file, hooks, c0] => do
+    -- the COMPOSED model (Scc/Pipeline.lean, the object of C01_composition): S1 dump -> x86-64 routine text
+    pure (Scc.Pipeline.runLinePipelineWith (hooks == "1") c0.toNat! (← IO.FS.readFile file))
+  | ["links", file] => do
+    pure (Scc.Pipeline.Links.linksLine (← IO.FS.readFile file))
+  | ["e2e", file, args, f1, f2] => do
+    -- model-only instance of C01_statement: source run, x86 machine run and native rendering of the model's own text
+    let src ← IO.FS.readFile file
+    let ws := if args == "-" then some [] else ((args.splitOn ",").filter (· ≠ "")).mapM fun w => w.toInt?.map (BitVec.ofInt 64)
+    match ws, Scc.Pipeline.frontEnd src with
+    | some a, .ok _ p' =>
+      if !Scc.Pipeline.validMain p' then pure "NOVALIDMAIN"
+      else match Scc.Pipeline.compileAllX86 true 0 p' with
+        | .error e => pure ("PANIC " ++ e)
+        | .ok (n, text) =>
+          pure ("SRC " ++ (Scc.Pipeline.srcRun p' a f1.toNat!).render ++
+            " X86 " ++ (Scc.Pipeline.ofX86 (Scc.X86.run text a f2.toNat! {})).render ++
+            " NATIVE " ++ Scc.Pipeline.runLineNative text n a f2.toNat!)
+    | none, _ => pure "ERR args"
+    | _, _ => pure "REJECTED"
   | _ => pure "ERR unknown component"
 
 partial def loop (h : IO.FS.Stream) (out : IO.FS.Stream) : IO Unit := do
